@@ -39,11 +39,15 @@ claimed = {
    text="Guard obligations anchored at the statements that perform privileged effects, each proved on every path reaching it: stores to the topic fields need membership and, on +t channels, channel-operator status; deleting another member (KICK) needs channel-operator status; writing an invitation needs membership and, on +i channels, channel-operator status; stores to channel flags, key and the ban list need the operator privilege evaluated at command start (linked to channel-operator or IRC-operator status by a loop invariant); user modes only for oneself or by an IRC operator; KILL, GLINE's ban-map write and network-wide notices need s.Operator; s.Operator is only set after a configured name/password pair matched (contract of the authOper closure, quantified over all configured operators); s.Server only with a configured services password; joining an existing +i channel needs an invitation, a +k channel without +x the exact key, invitations are used up by the join; a captcha token is only accepted when not older than five minutes; services handlers are only dispatched for services links (dispatch gate).",
    note="Not covered: the +b clause of JOIN (banned() and regular expressions are not interpreted; DESIGN.md records that a valid captcha on a +x channel skips the +b test), the HMAC signature and 'okay:' purpose of captcha tokens. The MODE privilege is evaluated once per command, as the code does.",
    design="§5 C13"),
+ "C01": dict(
+   text="Effect contract 'deterministic' over the whole apply-path closure (recomputed from the SSA call graph on every run: FSM.applyRobustMessage, Unmarshal, NewIRCServer, every registered command handler, closures and function variables): no function in it calls a clock, random, environment or runtime source, starts a goroutine or touches a channel; every range over a map in the closure (25 today, enumerated from the SSA, so a new loop is checked without annotation) is shown order-independent by one of: collect-then-sort (every use of the collected slice is dominated by the sort), commuting body (only deletes, inserts of fixed values, inserts keyed by the loop key, writes to objects owned by the iteration's own value or allocated in the iteration), or first-match with at most one matching key (key equality, or the uniqueness lemma over the proved nickname-ownership invariant, discharged by SMT). Reply and message ids are proved to derive from the entry (contract of send, msgid postcondition of ProcessMessage).",
+   note="The lifting from 'every function is deterministic and order-independent' to 'equal logs give equal outputs' is a stated meta-argument, not machine-checked. Assumes dependencies outside the nondeterminism list are deterministic, the command table is identical on all nodes, keyed inserts use an injective key function on the keys present. Decided by a structural (dataflow) check on the SSA plus one SMT lemma; no solver is involved in the effect/order classification.",
+   design="§5 C01"),
 }
 na = {
  "C05": "whole-system property over process kills, restarts and leader changes of several OS processes running hashicorp/raft; no function contract within reach expresses it (DESIGN §5 C05)",
 }
-notbuilt = ["C01","C02","C03","C04","C07","C08","C09","C15","C18","C20"]
+notbuilt = ["C02","C03","C04","C07","C08","C09","C15","C18","C20"]
 checks = []
 for pid, c in sorted(claimed.items()):
     checks.append({
